@@ -621,3 +621,121 @@ Proof.
   - vm_compute. reflexivity.
   - vm_compute. reflexivity.
 Qed.
+
+(* ---- one sender, any staleness: the line budget --------------------------------------- *)
+(* The only link to the clock is that the time forgiven so far never exceeds the time
+   elapsed since the start (every stretch is forgiven at most once: hold_inv). *)
+Definition sum_el3 (l : list (Z * Z * Z)) : Z := fold_right (fun x a => snd x + a) 0 l.
+Definition sum_wait3 (l : list (Z * Z * Z)) : Z := fold_right (fun x a => fst (fst x) + a) 0 l.
+Definition end_one (w t : Z) (steps : list (Z * Z * Z)) : Z := snd (fst (run_one w t steps)).
+Definition wd_one (w t : Z) (steps : list (Z * Z * Z)) : Z := fst (fst (run_one w t steps)).
+
+Lemma run_one_cons : forall w t wait chars el rest,
+  run_one w t ((wait, chars, el) :: rest) =
+  let r := rate_core w el chars in
+  let x := run_one (fst r) (t + wait + snd r) rest in
+  (fst (fst x), snd (fst x), (t + wait, snd r) :: snd x).
+Proof.
+  intros. cbn [run_one]. destruct (rate_core w el chars) as [w1 d]. cbn [fst snd].
+  destruct (run_one w1 (t + wait + d) rest) as [[w2 t2] out]. reflexivity.
+Qed.
+
+Lemma run_one_snoc : forall steps w t wait chars el,
+  let w1 := wd_one w t steps in
+  let t1 := end_one w t steps in
+  let r := rate_core w1 el chars in
+  wd_one w t (steps ++ [(wait, chars, el)]) = fst r /\
+  end_one w t (steps ++ [(wait, chars, el)]) = t1 + wait + snd r.
+Proof.
+  induction steps as [|[[wa c] e] steps IH]; intros w t wait chars el.
+  - unfold wd_one, end_one. cbn [app]. rewrite run_one_cons. cbv zeta. cbn [run_one fst snd]. split; reflexivity.
+  - unfold wd_one, end_one in *. cbn [app]. rewrite !run_one_cons. cbv zeta. cbn [fst snd].
+    apply IH.
+Qed.
+
+Lemma sum_cost3_snoc : forall l x, sum_cost3 (l ++ [x]) = sum_cost3 l + cost (snd (fst x)).
+Proof. intros. rewrite sum_cost3_app. unfold sum_cost3. cbn [fold_right]. lia. Qed.
+Lemma sum_el3_snoc : forall l x, sum_el3 (l ++ [x]) = sum_el3 l + snd x.
+Proof. induction l as [|y l IH]; intros x; unfold sum_el3 in *; cbn [app fold_right] in *; [lia|]. rewrite IH. lia. Qed.
+Lemma sum_wait3_snoc : forall l x, sum_wait3 (l ++ [x]) = sum_wait3 l + fst (fst x).
+Proof. induction l as [|y l IH]; intros x; unfold sum_wait3 in *; cbn [app fold_right] in *; [lia|]. rewrite IH. lia. Qed.
+
+(* the time of the rate call of the event after `steps` that waits `wait` *)
+Definition call_time (w t : Z) (steps : list (Z * Z * Z)) (wait : Z) : Z := end_one w t steps + wait.
+
+(* every call's forgiven total is covered by the time elapsed until that call *)
+Fixpoint credit_ok (w t0 : Z) (done todo : list (Z * Z * Z)) : Prop :=
+  match todo with
+  | [] => True
+  | x :: rest =>
+      sum_el3 (done ++ [x]) <= call_time w t0 done (fst (fst x)) - t0 /\
+      credit_ok w t0 (done ++ [x]) rest
+  end.
+
+Lemma wd_one_lower : forall steps w t, 0 <= w ->
+  w + sum_cost3 steps - sum_el3 steps <= wd_one w t steps /\ 0 <= wd_one w t steps.
+Proof.
+  induction steps as [|x steps IH] using rev_ind; intros w t Hw.
+  - unfold wd_one, sum_cost3, sum_el3. cbn [run_one fst snd fold_right]. lia.
+  - destruct x as [[wait chars] el].
+    pose proof (run_one_snoc steps w t wait chars el) as [S1 _]. cbv zeta in S1. rewrite S1.
+    pose proof (rate_core_spec (wd_one w t steps) el chars) as [R1 _]. rewrite R1.
+    specialize (IH w t Hw). rewrite sum_cost3_snoc, sum_el3_snoc. cbn [fst snd]. lia.
+Qed.
+
+(* C16_wallclock for one sender, any staleness: after any number of events the cost written
+   fits in the 8 s allowance plus the real time elapsed until the last Send returned *)
+Definition step1_ok (x : Z * Z * Z) : Prop := 0 <= fst (fst x) /\ 0 <= snd (fst x).
+
+Lemma wallclock_one_aux : forall steps w t0,
+  0 <= w <= threshold -> Forall step1_ok steps ->
+  forall done todo, steps = done ++ todo -> credit_ok w t0 done todo ->
+  w + sum_cost3 done <= threshold + (end_one w t0 done - t0) ->
+  w + sum_cost3 steps <= threshold + (end_one w t0 steps - t0).
+Proof.
+  intros steps w t0 Hw HF done todo. revert done.
+  induction todo as [|x todo IH]; intros done Hs Hc Hd.
+  - rewrite app_nil_r in Hs. now subst.
+  - destruct Hc as [Hc1 Hc2]. apply (IH (done ++ [x])); [now rewrite <- app_assoc|exact Hc2|].
+    destruct x as [[wait chars] el]. cbn [fst snd] in Hc1.
+    assert (Hx : 0 <= wait /\ 0 <= chars).
+    { rewrite Hs in HF. apply Forall_app in HF. destruct HF as [_ HF]. inversion HF as [|? ? H1 _]; subst. exact H1. }
+    pose proof (run_one_snoc done w t0 wait chars el) as [S1 S2]. cbv zeta in S1, S2.
+    pose proof (rate_core_spec (wd_one w t0 done) el chars) as [R1 R2].
+    pose proof (wd_one_lower (done ++ [(wait, chars, el)]) w t0 ltac:(lia)) as [L1 L2].
+    rewrite sum_cost3_snoc, sum_el3_snoc in L1. cbn [fst snd] in L1.
+    rewrite sum_cost3_snoc. cbn [fst snd]. rewrite S2.
+    unfold call_time in Hc1. rewrite sum_el3_snoc in Hc1. cbn [snd] in Hc1. rewrite S1 in L1, L2.
+    pose proof (cost_pos chars ltac:(lia)) as Hcp.
+    destruct (threshold <? fst (rate_core (wd_one w t0 done) el chars)) eqn:T; rewrite R2; lia.
+Qed.
+
+Lemma wallclock_one : forall steps w t0,
+  0 <= w <= threshold -> Forall step1_ok steps -> credit_ok w t0 [] steps ->
+  w + sum_cost3 steps <= threshold + (end_one w t0 steps - t0) /\
+  Z.of_nat (length steps) * second <= threshold + (end_one w t0 steps - t0).
+Proof.
+  intros steps w t0 Hw HF HC.
+  assert (A : w + sum_cost3 steps <= threshold + (end_one w t0 steps - t0)).
+  { apply (wallclock_one_aux steps w t0 Hw HF [] steps eq_refl HC). unfold end_one, sum_cost3. cbn [run_one fst snd fold_right]. lia. }
+  split; [exact A|].
+  assert (Hge : Z.of_nat (length steps) * second <= sum_cost3 steps).
+  { clear - HF. induction steps as [|[[a b] c] l IH]; [cbn; lia|].
+    inversion HF as [|? ? [_ Hc] Hl]; subst. specialize (IH Hl). cbn [fst snd] in Hc.
+    unfold sum_cost3 in *. cbn [fold_right length fst snd]. pose proof (cost_ge_second b Hc). lia. }
+  lia.
+Qed.
+
+(* satisfiable, and covering what run_sync cannot: ten events at one instant 1.3 s after the
+   last write, every call forgiving nothing but the first (which forgives the idle period) *)
+Example wallclock_one_sat :
+  let steps := (cost 30, 30, cost 30) :: repeat (0, 30, 0) 9 in
+  credit_ok 0 0 [] steps /\ Forall step1_ok steps /\
+  map snd (snd (run_one 0 0 steps)) = repeat 0 7 ++ repeat (cost 30) 3.
+Proof.
+  cbv zeta. split; [|split].
+  - vm_compute. repeat split; intro; discriminate.
+  - apply Forall_forall. intros x Hx. vm_compute in Hx.
+    repeat (destruct Hx as [Hx|Hx]; [subst x; vm_compute; split; intro; discriminate|]). destruct Hx.
+  - vm_compute. reflexivity.
+Qed.
